@@ -142,6 +142,9 @@ class _Canon(ast.NodeTransformer):
         return ast.fix_missing_locations(ast.copy_location(comp, n))
 
     # ---- position counters: zip(itertools.count([k]), X) / zip(range(len(X)), X)  ->  enumerate(X[, k])
+    # ---- map(f, X) -> (f(x) for x in X);  list(map(f, X)) -> [f(x) for x in X]   (f a name / attribute / one-parameter lambda)
+    _fresh = [0]
+
     def visit_Call(self, n):
         self.generic_visit(n)
         dz = self._dict_zip(n)
@@ -152,6 +155,22 @@ class _Canon(ast.NodeTransformer):
                 and isinstance(n.args[0].elt, (ast.Tuple, ast.List)) and len(n.args[0].elt.elts) == 2 and not any(isinstance(e, ast.Starred) for e in n.args[0].elt.elts):
             g = n.args[0]
             return ast.fix_missing_locations(ast.copy_location(ast.DictComp(key=g.elt.elts[0], value=g.elt.elts[1], generators=g.generators), n))
+        inner = n.args[0] if isinstance(n.func, ast.Name) and n.func.id in ("list", "tuple") and len(n.args) == 1 and not n.keywords else n
+        if isinstance(inner, ast.Call) and isinstance(inner.func, ast.Name) and inner.func.id == "map" and len(inner.args) == 2 and not inner.keywords \
+                and not any(isinstance(a, ast.Starred) for a in inner.args) and (inner is n or n.func.id == "list"):
+            f, x = inner.args
+            lam = isinstance(f, ast.Lambda) and len(f.args.args) == 1 and not (f.args.posonlyargs or f.args.kwonlyargs or f.args.vararg or f.args.kwarg or f.args.defaults) \
+                and not any(isinstance(y, (ast.Lambda, ast.ListComp, ast.SetComp, ast.DictComp, ast.GeneratorExp)) for y in ast.walk(f.body))
+            if lam or (isinstance(f, (ast.Name, ast.Attribute)) and all(isinstance(y, (ast.Name, ast.Attribute, ast.expr_context)) for y in ast.walk(f))):
+                self._fresh[0] += 1
+                var = f"_m{self._fresh[0]}"
+                if lam:
+                    elt = self._subst_names(f.body, {f.args.args[0].arg: ast.Name(id=var, ctx=ast.Load())})
+                else:
+                    elt = ast.Call(func=f, args=[ast.Name(id=var, ctx=ast.Load())], keywords=[])
+                gen = ast.comprehension(target=ast.Name(id=var, ctx=ast.Store()), iter=x, ifs=[], is_async=0)
+                new = (ast.ListComp if inner is not n else ast.GeneratorExp)(elt=elt, generators=[gen])
+                return ast.fix_missing_locations(ast.copy_location(new, n))
         if isinstance(n.func, ast.Name) and n.func.id == "zip" and len(n.args) == 2 and not n.keywords and not any(isinstance(a, ast.Starred) for a in n.args):
             c, x = n.args
             new = None
